@@ -394,7 +394,7 @@ theorem forceLoop_nd {frc : Closure → MSt → Res PVal × MSt} (hf : ∀ cl st
 
 theorem forceAll_nd (ha : AltND alt) (fuel : Nat) (cl : Closure) (st : MSt) :
     ∀ x, (forceAll c alt fuel cl st).1 = .ok x → NDv x :=
-  forceLoop_nd (fun cl st x h => force_nd ha fuel cl st x h) fuel (.deferred cl) st (ndv_deferred cl)
+  forceLoop_nd (fun cl st x h => force_nd ha fuel cl st x h) (fuel + 2) (.deferred cl) st (ndv_deferred cl)
 
 end nd
 
